@@ -68,7 +68,9 @@ namespace nmtools::view
             if constexpr (is_none_v<step_t>)
                 return static_cast<element_type>(start) + index;
             else
-                return static_cast<element_type>(start) + (index * step);
+                // NOTE: convert before multiplying, index is unsigned and step may be negative
+                // (index * step wraps around, which a floating element type does not undo)
+                return static_cast<element_type>(start) + (static_cast<element_type>(index) * static_cast<element_type>(step));
         } // operator()
     }; // arange_t
     
